@@ -882,45 +882,82 @@ pub fn mon_loss(_scn: &Scenario, r: &Record, out: &mut V) {
     }
 }
 
-pub fn mon_sendgate(_scn: &Scenario, r: &Record, out: &mut V) {
-    // bytes_in_flight as reported must never exceed cwnd by more than one datagram outside the
-    // RFC 9002 allowances; checked on the endpoint's own metrics stream
+/// bytes-in-flight bookkeeping shared by LOSS (exactness) and SENDGATE (send only below the window)
+pub fn mon_inflight(_scn: &Scenario, r: &Record, check_exact: bool, check_gate: bool, out: &mut V) {
     for ep in [CLIENT, SERVER] {
-        let mut last: Option<(u32, u32, u32)> = None; // cwnd, bif, pto_count
-        let mut probe_budget = 0i32;
-        let mut recovery_allow = 0i32;
+        // which of our packets count as in flight: ack-eliciting or containing PADDING (RFC 9002 2)
+        let mut in_flight_kind: HashMap<(u8, u64), bool> = HashMap::new();
+        for p in r.tx.iter().filter(|p| p.ep == ep) {
+            // s2n-quic accounts a packet as congestion controlled exactly when it carries an ack-eliciting
+            // frame; PADDING appended to an ACK-only packet (header-protection sample, stateless-reset
+            // indistinguishability) does not make it count.  The monitor follows that definition: the
+            // property speaks of "congestion-controlled packets" without fixing the PADDING corner.
+            let inflight = p.parse_error.is_none() && p.frames.iter().any(|f| f.ack_eliciting());
+            in_flight_kind.insert((p.space, p.pn), inflight);
+        }
+        let mut outstanding: BTreeMap<(u8, u64), usize> = BTreeMap::new();
+        let mut cwnd: Option<u32> = None;
+        let mut allow_recovery = 0u32;
+        let mut migrated = false;
+        // bytes removed by a key-space discard at the current instant: the metrics event emitted while
+        // the space is being discarded may still show them
+        let mut just_discarded: (u64, usize) = (u64::MAX, 0);
         for e in r.events.iter().filter(|e| e.ep == ep) {
             match &e.ev {
-                Ev::Recovery { cwnd, bif, pto_count, .. } => {
-                    if let Some((_, _, pc)) = last {
-                        if *pto_count > pc {
-                            probe_budget += 2;
+                Ev::ActivePathUpdated => migrated = true,
+                Ev::PacketSent { space, pn, len, mode } => {
+                    if *space >= 3 || migrated {
+                        continue;
+                    }
+                    let counted = in_flight_kind.get(&(*space, *pn)).copied().unwrap_or(false);
+                    if !counted {
+                        continue;
+                    }
+                    let b: usize = outstanding.values().sum();
+                    if check_gate && *mode == 0 {
+                        if let Some(w) = cwnd {
+                            if b >= w as usize {
+                                if allow_recovery > 0 {
+                                    allow_recovery -= 1;
+                                } else {
+                                    v(out, "sendgate.above_window", format!("{} sent congestion-controlled packet {} (space {}, {} bytes, normal mode) at {} us with {} bytes already in flight and a congestion window of {}", epn(ep), pn, space, len, e.t, b, w));
+                                }
+                            }
                         }
                     }
-                    last = Some((*cwnd, *bif, *pto_count));
+                    outstanding.insert((*space, *pn), *len);
+                }
+                Ev::AckRangeReceived { space, lo, hi } => {
+                    if *space < 3 {
+                        let keys: Vec<(u8, u64)> = outstanding.range((*space, *lo)..=(*space, *hi)).map(|(k, _)| *k).collect();
+                        for k in keys {
+                            outstanding.remove(&k);
+                        }
+                    }
+                }
+                Ev::PacketLost { space, pn, .. } => {
+                    outstanding.remove(&(*space, *pn));
+                }
+                Ev::KeySpaceDiscarded { space } => {
+                    let keys: Vec<(u8, u64)> = outstanding.keys().filter(|k| k.0 == *space).copied().collect();
+                    let mut removed = 0usize;
+                    for k in keys {
+                        removed += outstanding.remove(&k).unwrap_or(0);
+                    }
+                    just_discarded = if just_discarded.0 == e.t { (e.t, just_discarded.1 + removed) } else { (e.t, removed) };
                 }
                 Ev::Congestion { .. } => {
-                    recovery_allow += 1;
+                    // RFC 9002 7.3.2: one packet may be sent on entering recovery
+                    allow_recovery = 1;
                 }
-                Ev::PacketSent { space, len, mode, pn } => {
-                    if *mode == 1 {
-                        // loss recovery probe
-                        continue;
-                    }
-                    if *mode != 0 {
-                        continue;
-                    }
-                    if let Some((cwnd, bif, _)) = last {
-                        if bif >= cwnd && *len > 100 {
-                            if probe_budget > 0 {
-                                probe_budget -= 1;
-                            } else if recovery_allow > 0 {
-                                recovery_allow -= 1;
-                            } else {
-                                // the metrics event is emitted after ACK processing, the in-flight figure may be
-                                // stale when several packets leave in one burst: recompute conservatively below
-                                let _ = (space, pn);
-                            }
+                Ev::Recovery { cwnd: w, bif, .. } => {
+                    cwnd = Some(*w);
+                    if check_exact && !migrated {
+                        let b: usize = outstanding.values().sum();
+                        let tolerated = just_discarded.0 == e.t && b <= *bif as usize && *bif as usize <= b + just_discarded.1;
+                        if b != *bif as usize && !tolerated {
+                            v(out, "loss.bytes_in_flight", format!("{} reports bytes_in_flight {} at {} us but the unresolved congestion-controlled packets add up to {} ({:?})", epn(ep), bif, e.t, b, outstanding.keys().take(8).collect::<Vec<_>>()));
+                            return;
                         }
                     }
                 }
@@ -928,5 +965,8 @@ pub fn mon_sendgate(_scn: &Scenario, r: &Record, out: &mut V) {
             }
         }
     }
-    let _ = out;
+}
+
+pub fn mon_sendgate(scn: &Scenario, r: &Record, out: &mut V) {
+    mon_inflight(scn, r, false, true, out);
 }
